@@ -5,6 +5,7 @@ well-formedness `WT`) and helper lemmas about the weighted pairing.
 import OdlModel.Model.Adjoint
 import Mathlib.Algebra.BigOperators.Ring.Finset
 import Mathlib.Algebra.BigOperators.Group.Finset.Sigma
+import Mathlib.Algebra.BigOperators.Field
 import Mathlib.Algebra.Field.Basic
 import Mathlib.Tactic.Ring
 import Mathlib.Tactic.FieldSimp
@@ -55,7 +56,7 @@ def Leaf.Assumed (cj : K → K) (I : K) (l : Leaf K) : Prop :=
 
 /-- Conditions under which the coded leaf adjoint is claimed correct.  They describe real
 ODL configurations (spaces as the constructors build them); the configurations they exclude
-are exactly the recorded findings (e.g. `MatrixOperator` with unequal weightings). -/
+are the recorded open findings (e.g. ComponentProjection on weighted product spaces). -/
 def Leaf.WT (cj : K → K) (I : K) : Leaf K → Prop
   | .opaque re d r f g => Pair cj (re = true) d r f g
   | .nonlin _ _ _ => True
@@ -67,7 +68,7 @@ def Leaf.WT (cj : K → K) (I : K) : Leaf K → Prop
   | .realPart S R => Leaf.Assumed cj I (.realPart S R)
   | .imagPart S R => Leaf.Assumed cj I (.imagPart S R)
   | .cembed S C s => Leaf.Assumed cj I (.cembed S C s)
-  | .matrix d r M => d.m = 1 ∧ r.m = 1 ∧ (∃ c, (∀ i, d.W 0 i = c) ∧ (∀ i, r.W 0 i = c)) ∧
+  | .matrix d r M => d.m = 1 ∧ r.m = 1 ∧ (∀ i, d.W 0 i ≠ 0) ∧ realW cj d ∧ realW cj r ∧
       d.real = r.real ∧ (d.real = true → ∀ i k, cj (M i k) = M i k)
   | .pwInner V X G w v => X.m = 1 ∧ (∀ j i, V.W j i = v j * X.W 0 i) ∧
       (∀ j, j < V.m → V.n j = X.n 0) ∧ (∀ j, j < V.m → v j ≠ 0) ∧ V.real = X.real ∧
@@ -75,14 +76,16 @@ def Leaf.WT (cj : K → K) (I : K) : Leaf K → Prop
   | .pwInnerAdj X V G w v => X.m = 1 ∧ (∀ j i, V.W j i = v j * X.W 0 i) ∧
       (∀ j, j < V.m → V.n j = X.n 0) ∧ (∀ j, j < V.m → v j ≠ 0) ∧ V.real = X.real ∧
       mem cj V G ∧ (∀ j, cj (w j) = w j ∧ cj (v j) = v j)
-  | .sampling S R idx _ cv => S.m = 1 ∧ R.m = 1 ∧ (∀ i, S.W 0 i = cv) ∧ (∀ k, R.W 0 k = 1) ∧
-      cv ≠ 0 ∧ cj cv = cv ∧ (∀ k, k < R.n 0 → idx k < S.n 0) ∧ R.real = S.real
-  | .wsum R S idx _ cv => S.m = 1 ∧ R.m = 1 ∧ (∀ i, S.W 0 i = cv) ∧ (∀ k, R.W 0 k = 1) ∧
-      cv ≠ 0 ∧ cj cv = cv ∧ (∀ k, k < R.n 0 → idx k < S.n 0) ∧ R.real = S.real
-  | .flatten S R cv => S.m = 1 ∧ R.m = 1 ∧ R.n 0 = S.n 0 ∧ (∀ i, S.W 0 i = cv) ∧
-      (∀ k, R.W 0 k = 1) ∧ cv ≠ 0 ∧ cj cv = cv ∧ R.real = S.real
-  | .flattenInv R S cv => S.m = 1 ∧ R.m = 1 ∧ R.n 0 = S.n 0 ∧ (∀ i, S.W 0 i = cv) ∧
-      (∀ k, R.W 0 k = 1) ∧ cv ≠ 0 ∧ cj cv = cv ∧ R.real = S.real
+  | .sampling S R idx _ cv => S.m = 1 ∧ R.m = 1 ∧ (∀ i, S.W 0 i ≠ 0) ∧ realW cj S ∧
+      (∀ k, R.W 0 k = 1) ∧ cv ≠ 0 ∧ cj cv = cv ∧ (∀ k, k < R.n 0 → idx k < S.n 0) ∧
+      R.real = S.real
+  | .wsum R S idx _ cv => S.m = 1 ∧ R.m = 1 ∧ (∀ i, S.W 0 i ≠ 0) ∧ realW cj S ∧
+      (∀ k, R.W 0 k = 1) ∧ cv ≠ 0 ∧ cj cv = cv ∧ (∀ k, k < R.n 0 → idx k < S.n 0) ∧
+      R.real = S.real
+  | .flatten S R => S.m = 1 ∧ R.m = 1 ∧ R.n 0 = S.n 0 ∧ (∀ i, S.W 0 i ≠ 0) ∧ realW cj S ∧
+      (∀ k, R.W 0 k = 1) ∧ R.real = S.real
+  | .flattenInv R S => S.m = 1 ∧ R.m = 1 ∧ R.n 0 = S.n 0 ∧ (∀ i, S.W 0 i ≠ 0) ∧ realW cj S ∧
+      (∀ k, R.W 0 k = 1) ∧ R.real = S.real
   | .proj P Q idx => Leaf.Assumed cj I (.proj P Q idx)
   | .projAdj Q P idx => Leaf.Assumed cj I (.projAdj Q P idx)
 
